@@ -92,6 +92,39 @@ def string(value):
     return '"%s"' % value
 
 
+def ident(value):
+    r"""
+    Serialize identifier `value`: the tokenizer resolves hexadecimal escapes,
+    so a character which would not be read as part of the identifier again
+    (a digit at the start, a control character) is written as escape, e.g.::
+
+        ``1a`` => ``\31 a``
+    """
+    if not value or (
+        not value[0].isdigit()
+        and not (value[0] == '-' and value[1:2].isdigit())
+        and not _match_control(value)
+    ):
+        return value
+
+    out = []
+    for i, c in enumerate(value):
+        if (
+            '0' <= c <= '9' and (i == 0 or (i == 1 and value[0] == '-'))
+        ) or c < ' ' or c == '\x7f':
+            # (six digits need no terminating space)
+            out.append('\\%06x' % ord(c))
+        else:
+            out.append(c)
+    if out[-1] != value[-1]:
+        # white space following the escape would be read as part of it
+        out.append(' ')
+    return ''.join(out)
+
+
+_match_control = re.compile('[\x00-\x1f\x7f]').search
+
+
 def stringvalue(string):
     """
     Retrieve actual value of string without quotes. Escaped
